@@ -1087,3 +1087,46 @@ Proof.
   induction ops as [|o ops IH]; intros xs H; cbn [valid_histb valid_hist] in *; [exact I|].
   apply andb_prop in H. destruct H as [H1 H2]. split; [apply valid_opb_sound; exact H1|apply IH; exact H2].
 Qed.
+
+(** * contains over a field of characteristic p: the length guard (boundary of finding F-C31-2)
+
+    seclist.count sums the equality bits IN THE ELEMENT FIELD, so over GF(p^k) its value is the number
+    of occurrences modulo the characteristic p, and contains = (count != 0).  It equals list
+    membership for every list SHORTER than the characteristic; at length p it can fail. *)
+Definition count_mod (p : Z) (xs : list Z) (v : Z) : Z := (count xs v) mod p.
+Definition contains_mod (p : Z) (xs : list Z) (v : Z) : Z := nez (count_mod p xs v) 0.
+
+Lemma py_count_bounds xs v : 0 <= py_count xs v <= Z.of_nat (length xs).
+Proof.
+  induction xs as [|a xs IH]; cbn [py_count length]; [lia|].
+  destruct (a =? v); lia.
+Qed.
+
+Theorem contains_char_guard p xs v : Z.of_nat (length xs) < p ->
+  count_mod p xs v = py_count xs v /\ contains_mod p xs v = b2z (py_inb xs v).
+Proof.
+  intros Hp. pose proof (py_count_bounds xs v) as Hb.
+  assert (E : count_mod p xs v = py_count xs v).
+  { unfold count_mod. rewrite count_refines. apply Z.mod_small. lia. }
+  split; [exact E|]. unfold contains_mod. rewrite E.
+  pose proof (contains_refines xs v) as H. unfold contains in H. rewrite count_refines in H. exact H.
+Qed.
+
+Lemma py_count_repeat v n : py_count (repeat v n) v = Z.of_nat n.
+Proof.
+  induction n as [|n IH]; [reflexivity|]. cbn [repeat py_count]. rewrite Z.eqb_refl, IH. lia.
+Qed.
+
+Lemma py_inb_repeat v n : py_inb (repeat v (S n)) v = true.
+Proof. cbn [repeat py_inb]. rewrite Z.eqb_refl. reflexivity. Qed.
+
+(** the guard is tight: a list of exactly p copies of v contains v, but contains_mod says 0 *)
+Theorem contains_char_boundary p v : 0 < p ->
+  let xs := repeat v (Z.to_nat p) in
+  Z.of_nat (length xs) = p /\ py_inb xs v = true /\ contains_mod p xs v = 0.
+Proof.
+  intros Hp xs. subst xs. rewrite repeat_length, Z2Nat.id by lia. split; [reflexivity|]. split.
+  - destruct (Z.to_nat p) as [|n] eqn:E; [lia|]. apply py_inb_repeat.
+  - unfold contains_mod, count_mod. rewrite count_refines, py_count_repeat, Z2Nat.id by lia.
+    rewrite Z.mod_same by lia. reflexivity.
+Qed.
